@@ -84,6 +84,8 @@ def run(ch, build):
     for scn, out in zip(scns, outs):
         for step, res in zip(scn["steps"], out["steps"]):
             ch.note_case("c09-after-nonnull-reply", str(scn["bmc"]["suites"]) + step["op"])
+            if res.get("runaway"):
+                ch.violation({"kind": "runaway", "conn": "sessionless-after-nonnull-reply"}, {"scenario": scn, "what": "unbounded retransmission"})
             for e in res["bmc"]:
                 if e["kind"] in ("opensession", "rakp1", "rakp3", "ipmi-sessionless") and (e["sid"] != 0 or e["seq"] != 0 or e["auth"] or e["enc"]):
                     ch.violation({"kind": "c09", "conn": "sessionless-after-nonnull-reply"}, {"scenario": scn, "event": e,
